@@ -5,7 +5,7 @@ from vf.model import *
 
 CID_TEXT = "d,format,delimited\nf,id,,,,Integer\nf,kind\nc,u,IsUnique,id\nc,k,DistinctCount,kind < 3\n"
 CLEAN = "1,a\n2,b\n"; DUP = "1,a\n1,b\n"; MANY = "1,a\n2,b\n3,c\n"        # MANY fails the distinct count at the end
-OPS = ["read_clean", "read_dup", "read_many", "abandon1", "abandon2", "read_noclose", "write", "write_close", "write_dup"]
+OPS = ["read_clean", "read_dup", "read_many", "abandon1", "abandon2", "read_noclose", "write", "write_close", "write_dup", "two_readers"]
 
 
 def run_op(cid, op):
@@ -20,6 +20,11 @@ def run_op(cid, op):
     if op in ("abandon1", "abandon2"):
         def f():
             g = validio.rows(cid, io.StringIO(MANY)); got = [next(g) for _ in range(1 if op == "abandon1" else 2)]; g.close(); return got
+        return outcome(f)
+    if op == "two_readers":
+        def f():
+            r1 = validio.Reader(cid, io.StringIO(CLEAN)); r2 = validio.Reader(cid, io.StringIO(CLEAN))       # both created before either runs
+            a = [x for x in r1.rows()]; r1.close(); b = [x for x in r2.rows()]; r2.close(); return (a, b)
         return outcome(f)
     if op == "read_noclose":
         def f():
@@ -53,7 +58,7 @@ def unit_history_sweep():
                 k = 0
                 for seq in itertools.product(OPS, repeat=4):
                     k += 1
-                    if k % 6 == 0: yield seq
+                    if k % 9 == 0: yield seq
         def check(seq):
             cid = interface.create_cid_from_string(CID_TEXT)
             for i, op in enumerate(seq):
@@ -62,6 +67,6 @@ def unit_history_sweep():
                     return {"expected": "run %d (%s) behaves as on a freshly loaded CID: %r" % (i + 1, op, fresh_outcome[op]), "observed": repr(got)}
             return None
         return [sweep("C08/history/every run equals the same run on a fresh CID", cases(), check, "bounded",
-                      "all sequences of 1-3 operations and every 6th sequence of 4 (all of them + 2000 random sequences of 5-9 in thorough) over %s on one CID object with IsUnique and DistinctCount checks" % OPS,
+                      "all sequences of 1-3 operations and every 9th sequence of 4 (all of them + 2000 random sequences of 5-9 in thorough) over %s on one CID object with IsUnique and DistinctCount checks" % OPS,
                       describe=lambda s: {"operations": list(s)}, function="validio.rows / Reader / Writer on one Cid", unit="C08.history")]
     return NativeUnit("C08.history", "bounded exploration of operation histories on one CID object", ["C08"], run, kind="bounded")
